@@ -180,9 +180,36 @@ def l73c(mode, maxfrag):
         pkt = c._build_packet_impl(100.0 + i, False, 1000.0)
         sent.append(c.seq_sending)
     check(len(c.outgoing_messages) == 0, 'all fragments left')
+    if mode == 'retry':
+        # guaranteed: every carrying datagram is acked or times out by symbolic choice; what times out is
+        # re-queued and sent again; in the last round everything still pending is acknowledged
+        pending = list(sent)
+        t = 200.0
+        for rnd in range(2):
+            for i, s in enumerate(pending):
+                if s not in c.pending_acks:
+                    continue
+                if bool(symbool('r%d_timeout%d' % (rnd, i))):
+                    c._handle_timeout(s)
+                else:
+                    c._handle_ack(s)
+                check(False not in cb.calls, 'a guaranteed fragmented send never reports failure')
+                check(len(cb.calls) <= 1, 'at most one callback')
+            pending = []
+            for j in range(nfrag + 1):
+                if not c.outgoing_messages:
+                    break
+                c._build_packet_impl(t, False, 1000.0)
+                t += 1.0
+                pending.append(c.seq_sending)
+        for s in list(c.pending_acks):
+            c._handle_ack(s)
+        check(cb.calls == [True], 'the callback of a guaranteed fragmented send fires exactly once, with True, when every fragment is acknowledged')
+        check(len(cb.calls) == 1, 'the callback of a fragmented send fires exactly once')
+        return
     all_acked = True
     for i, s in enumerate(sent):
-        if mode == 'retry' or not bool(symbool('timeout%d' % i)):
+        if not bool(symbool('timeout%d' % i)):
             c._handle_ack(s)
         else:
             c._handle_timeout(s)
